@@ -94,10 +94,13 @@ def params_s(probe):
            "counter_length": small_int, "initial_counter_value": small_int}
     full = st.fixed_dictionaries({}, optional=opt)
     truthy = full.filter(lambda d: any(d.values()))
-    if not probe:
-        return weighted((9, truthy), (1, st.none()))
-    falsy = full.filter(lambda d: d and not any(d.values()))
-    return weighted((36, truthy), (1, falsy), (4, st.none()))
+    # parameters that are all zero / False are parameters like any other (the defect that lost them
+    # is repaired): built directly, one wrapped key in seven carries such a set
+    fopt = {k: (st.just(False) if k == "random_iv" else st.just(0)) for k in opt
+            if k in ("random_iv", "iv_length", "tag_length", "fixed_field_length",
+                     "invocation_field_length", "counter_length", "initial_counter_value")}
+    falsy = st.fixed_dictionaries({}, optional=fopt).filter(lambda d: d)
+    return weighted((30, truthy), (12, falsy), (4, st.none()))
 
 
 def info_s(probe):
